@@ -144,6 +144,8 @@ pub struct ERec {
     pub local_parent: Option<String>,
     /// index into the span's parent set (thread-safe spans)
     pub copy: usize,
+    /// identity of the delivered copy of a span set (one per submission and parent-set item)
+    pub emit: usize,
 }
 
 /// An attachment that travels separately from its target (by handle, or at the top level of a
@@ -363,6 +365,7 @@ impl<'a> Builder<'a> {
     fn emit_set(&mut self, lrecs: &[LRec], items: &[Item], submit: OpRef, collected: OpRef, set_uid: usize, into_set_records: Option<&mut Vec<ERec>>) {
         let mut out = Vec::new();
         for (copy, it) in items.iter().enumerate().filter(|(_, i)| i.sampled) {
+            let emit = self.next_order();
             // bulk-fill records are counted, not listed
             let mut fill: BTreeMap<(String, Option<String>), usize> = BTreeMap::new();
             for r in lrecs {
@@ -407,6 +410,7 @@ impl<'a> Builder<'a> {
                         set_uid,
                         local_parent: r.parent.clone(),
                         copy: 0,
+                        emit,
                     });
                 }
             }
@@ -428,6 +432,7 @@ impl<'a> Builder<'a> {
                     set_uid,
                     local_parent: None,
                     copy: 0,
+                    emit,
                 });
             }
             // top-level attachments travel to the thread-safe span the set hangs under
@@ -520,6 +525,7 @@ impl<'a> Builder<'a> {
                 set_uid: 0,
                 local_parent: None,
                 copy,
+                emit: 0,
             });
         }
     }
@@ -828,19 +834,32 @@ impl<'a> Builder<'a> {
                     { let uid = self.next_order(); self.emit_set(&lrecs, &items, at, at, uid, None); }
                 }
             }
-            Op::LcCollect { set } => match self.guards[actor].last() {
-                Some(G::Line) if self.lines[actor].last().map_or(false, |l| l.token.is_none()) => {
-                    let (lrecs, _) = self.pop_guard(actor, at).unwrap();
-                    let uid = self.next_order();
-                    self.sets.insert(*set, (uid, at, lrecs));
+            Op::LcCollect { set } => {
+                // innermost guard that is a scope; it must be a local collector's
+                let pos = self.guards[actor].iter().rposition(|g| !matches!(g, G::Local { .. }));
+                match pos.map(|p| &self.guards[actor][p]) {
+                    Some(G::Line) if self.lines[actor].last().map_or(false, |l| l.token.is_none()) => {
+                        let pos = pos.unwrap();
+                        self.guards[actor].remove(pos);
+                        // local spans still open are closed by the collection; their guards do nothing later
+                        for g in self.guards[actor][pos..].iter_mut() {
+                            if let G::Local { recorded, .. } = g {
+                                *recorded = false;
+                            }
+                        }
+                        let line = self.lines[actor].pop().expect("line");
+                        let uid = self.next_order();
+                        self.sets.insert(*set, (uid, at, line.lrecs));
+                    }
+                    Some(G::NoopGuard) => {
+                        let pos = pos.unwrap();
+                        self.guards[actor].remove(pos);
+                        let uid = self.next_order();
+                        self.sets.insert(*set, (uid, at, vec![]));
+                    }
+                    _ => self.m.ill_formed.push(format!("{at:?}: collect without a local collector on top")),
                 }
-                Some(G::NoopGuard) => {
-                    self.guards[actor].pop();
-                    let uid = self.next_order();
-                    self.sets.insert(*set, (uid, at, vec![]));
-                }
-                _ => self.m.ill_formed.push(format!("{at:?}: collect without a local collector on top")),
-            },
+            }
             Op::LocalAddProps { props } => {
                 let mut any = false;
                 // one pseudo-span carries all pairs
